@@ -171,9 +171,9 @@ func (fan *HwMonFan) SetPwmEnabled(value ControlMode) (err error) {
 			if errors.Is(err, os.ErrPermission) {
 				ui.Warning("Cannot read pwm_enable of fan '%s', pwm_enable state validation cannot work. Continuing assuming it worked.", fan.GetId())
 				return nil
-			} else if ControlMode(currentValue) != value {
-				return fmt.Errorf("PWM mode stuck to %d", currentValue)
 			}
+		} else if ControlMode(currentValue) != value {
+			return fmt.Errorf("PWM mode stuck to %d", currentValue)
 		}
 	}
 	return err
